@@ -230,7 +230,8 @@ def load_known():
 
 def match_known(known, pid, ob):
     for k in known:
-        if k['property'] == pid and k['rule'] == ob.rule and k['construct'] == ob.construct:
+        if k['property'] == pid and k['rule'] == ob.rule and k['construct'] == ob.construct \
+                and ('config' not in k or k['config'] == ob.config):
             # every violated detail must be one the entry lists (a different violation of the same
             # obligation is still reported)
             pats = k.get('detail_patterns')
